@@ -14,7 +14,8 @@
               -- yield "se.insert.after_persist"
       step 3  ⟨kg.write(); insert_in_memory: dedup against the growing Vec, shadow-write the *new*
                tuples to the incremental engine at `time`, publish_snapshot if new_count > 0⟩   mod.rs:504-510, 2262-2334
-    delete_tuples_from: the same three steps with delete_in_memory (publish iff something was removed)   mod.rs:572-613, 2343-2406
+    delete_tuples_from: the same three steps with delete_in_memory (publish iff something was removed); tuples of
+      a relation without metadata (no insert applied yet) are filtered out first: Ok(0), no time, no log   mod.rs:624-693
     execute_query_tuples_on / execute_query_with_rules_tuples_on: ⟨load the ArcSwap snapshot⟩ then evaluate
       on the immutable snapshot (facts and rule list) — one step                 mod.rs:667-683, 1438
     register_rule_in / drop_rule_in: ⟨kg.write(); rule catalog update; publish_snapshot⟩ — one step   mod.rs:911-953, 2481
@@ -81,6 +82,7 @@ abbrev Rules := List (Nat × List Rel)
 
 structure State where
   clock : Nat := 1                              -- StorageEngine::logical_time (mod.rs:143)
+  known : Rel → Bool := fun _ => false          -- relation present in `metadata.relations` (an insert was applied)
   rules : Rules := []                           -- rule_catalog (live)
   snapRules : Rules := []                       -- rules carried by the published snapshot
   live : Rel → List Tup := fun _ => []          -- engine.input_tuples
@@ -183,10 +185,11 @@ def applyStep (st : State) (t : Tid) (th : Thread) (op : Op) (τ : Nat) : State 
     let (inc', ok) := match st.inc with
       | some i => if nw.isEmpty then (some i, true) else let (i', ok) := i.write r nw τ 1; (some i', ok)
       | none => (none, true)
+    let known' := fun x => if x = r then true else st.known x      -- metadata.add_relation (mod.rs:2301), before the shadow write
     if !ok then
-      { st with live := live', applied := applied', inc := inc', threads := setThread st.threads t (th.finish .err applied'.length) }
+      { st with live := live', known := known', applied := applied', inc := inc', threads := setThread st.threads t (th.finish .err applied'.length) }
     else
-      { st with live := live', applied := applied', inc := inc',
+      { st with live := live', known := known', applied := applied', inc := inc',
                 snap := if nw.isEmpty then st.snap else live',
                 snapRules := if nw.isEmpty then st.snapRules else st.rules,
                 threads := setThread st.threads t (th.finish (.ins nw.length (ts.length - nw.length)) applied'.length) }
@@ -257,9 +260,12 @@ def step (st : State) (t : Tid) : Res :=
         | some i => let (i', out) := i.readc r
                     .ok { st with inc := some i', threads := setThread st.threads t (th.finish out st.applied.length) }
       | op, .start =>
-        let (_, ts, _) := opRows op
+        let (r, ts, _) := opRows op
         if ts.isEmpty then
           .ok { st with threads := setThread st.threads t (th.finish (match op with | .insert _ _ => .ins 0 0 | _ => .del 0) st.applied.length) }
+        else if (match op with | .delete _ _ => !st.known r | _ => false) then
+          -- delete of an unknown relation: filtered out before a time is taken or anything is persisted (mod.rs:651-660)
+          .ok { st with threads := setThread st.threads t (th.finish (.del 0) st.applied.length) }
         else .ok { st with clock := st.clock + 1, threads := setThread st.threads t { th with pc := .afterTime st.clock } }
       | op, .afterTime τ =>
         let (r, ts, d) := opRows op
